@@ -296,6 +296,22 @@ func genC16(g *Gen) {
 		}
 		g.Exhaust = append(g.Exhaust, "CountPrefixes: all 2..4-key subsets of {'',00,a,a00,ab,b,b80} x all sub-ranges [s,e) x m in {1,2,8,9,40}")
 	}
+	// (4b) long shared prefixes: every first-difference bit is far above 2^15 (quick) / 2^17 (thorough), so a
+	// too-small initial value of the running minimum or a 16-bit intermediate shows; keys end on / off a chunk edge
+	{
+		plens := []int{4100}
+		if g.Thorough {
+			plens = append(plens, 4096, 20001)
+		}
+		for _, pl := range plens {
+			p := string(g.R.Bytes(pl, []byte{'a', 'b', 0x00}))
+			ks := c16SortDedup([]string{p, p + "\x00", p + "a", p + "a\x00\x00", p + "b"})
+			fdb(ks, "long-prefix")
+			cp(ks, 0, len(ks), 9, "long-prefix")
+			cp(ks, 1, 4, 2, "long-prefix")
+			cp(ks, 2, 5, 40, "long-prefix")
+		}
+	}
 	// (5) structured random key sets: FirstDiffBits on the sorted set and on a shuffled copy,
 	// CountPrefixes on all sub-ranges (small sets) or random sub-ranges x the m list
 	nb := g.N(700, 14000)
